@@ -461,3 +461,33 @@ def scribble(d):
         for k in list(d):
             d[k] = "scribbled"
         d["scribbled-key"] = 1
+
+
+TZS = ["UTC", "Europe/Oslo", "America/New_York", "Australia/Lord_Howe", "Pacific/Apia", "Asia/Kathmandu"]
+
+
+class local_tz:
+    """Run a block with the process's local time zone set to one of TZS (decoding must not depend on it)."""
+
+    def __init__(self, selector: int):
+        self.tz = TZS[selector % len(TZS)]
+
+    def __enter__(self):
+        import os
+        import time
+
+        self.old = os.environ.get("TZ")
+        os.environ["TZ"] = self.tz
+        time.tzset()
+        return self.tz
+
+    def __exit__(self, *exc):
+        import os
+        import time
+
+        if self.old is None:
+            os.environ.pop("TZ", None)
+        else:
+            os.environ["TZ"] = self.old
+        time.tzset()
+        return False
